@@ -28,7 +28,7 @@ def step (line : String) : String :=
     | t :: rest =>
       -- `e<k>`: scale class 2^k applied to points and reference in the C++ (volumes reported divided by 2^(k*m)): by
       -- rankSpec_scale / hvSpec_scale_shift / hvQ_scale the line of the unscaled integers
-      if (t.startsWith "q" || t.startsWith "e") && t.length > 1 && ((t.drop 1).toString.toInt?).isSome then rest else toks0
+      if (t.startsWith "q" || t.startsWith "e" || t.startsWith "t") && t.length > 1 && ((t.drop 1).toString.toInt?).isSome then rest else toks0
     | [] => toks0
   match toks with
   | [] => ""
